@@ -1434,16 +1434,12 @@ def plugin_reload_check(run):
     """A long-lived dataset read a plugin feature; the plugin is removed and
     a plugin with the same feature name but another method is registered:
     the next read must equal a fresh dataset's. (Plugin (un)loading is at the
-    edge of the property's history alphabet; the probe is active once
-    known_findings.json lists C06-plugin-reregistered-stale, as finding or
-    as fixed.)"""
+    edge of the property's history alphabet; the defect was repaired, a
+    recurrence is a violation.)"""
     import numpy as np
     import dclab
     from dclab.rtdc_dataset.feat_anc_plugin import plugin_feature as pf
-    fid = "C06-plugin-reregistered-stale"
-    if fid not in [e["id"] for e in run.findings]:
-        run.notes.append("plugin reload probe inactive (%s not listed)" % fid)
-        return
+    fid = "C06-plugin-reregistered-stale"    # repaired in /repo (a5aeb9d)
 
     def m1(ds):
         return {"verif_reload": ds["deform"] * 2}
@@ -1677,6 +1673,25 @@ def describe(case):
 
 def replay(payload):
     case = payload.get("case")
+    if case and case.get("kind") == "plugin-reload":
+        class _R:
+            findings, notes, fails = [], [], []
+
+            def record_case(self, *a, **k):
+                pass
+
+            def count(self, *a, **k):
+                pass
+
+            def oracle_failure(self, case, desc, fid=None):
+                self.fails.append(desc)
+        r = _R()
+        plugin_reload_check(r)
+        for d in r.fails:
+            print("FAILS:", d)
+        if not r.fails:
+            print("passes on the current tree")
+        return 1 if r.fails else 0
     if not case or "ops" not in case:
         print("replay: nothing executable in this file (kind=%s): %s" % (
             payload.get("kind"), json.dumps(payload.get("broken"))[:2000]))
